@@ -412,7 +412,7 @@ static void huge_sort(int is_d, uint64_t nsel, uint64_t seed)
     if (is_d) cstl_dlist_init(&dl[0], doff(0)); else cstl_slist_init(&sl[0], soff(0));
     for (i = 0; i < n; i++) {
         pool[i].magic = MAGIC; pool[i].tail = ~MAGIC; pool[i].id = 0;
-        pool[i].key = (nsel >> 32 & 3) == 0 ? (int)i : (nsel >> 32 & 3) == 1 ? (int)(n - i) : (int)(splitmix64(&x) % 100000);
+        pool[i].key = (nsel >> 32 & 7) == 0 ? (int)i : (nsel >> 32 & 7) == 1 ? (int)(n - i) : (int)(splitmix64(&x) % 100000);
         g_inlib = 1;
         if (is_d) cstl_dlist_push_back(&dl[0], &pool[i]); else cstl_slist_push_back(&sl[0], &pool[i]);
         g_inlib = 0;
